@@ -21,9 +21,20 @@ def gen(ctx, part, ND=2, Sample=0, MaxIO=2):
     return res.values
 
 
+# abstract file names whose concrete spellings are canonically equivalent Unicode strings (NFC / NFD of the
+# same text): on the file systems gwf runs on they are two files, and so they are in the specification
+CONC = {"u1": "caf\u00e9", "u2": "cafe\u0301"}
+
+
 def spell(p, root=""):
     """Concrete spelling of an abstract path; absolute ones live under the real directory `root`."""
-    return (root + "/" if p["abs"] else "") + "/".join(p["comps"])
+    return (root + "/" if p["abs"] else "") + "/".join(CONC.get(c, c) for c in p["comps"])
+
+
+def unspell(s):
+    for a, c in CONC.items():
+        s = s.replace(c, a)
+    return s
 
 
 _ROOT = None
@@ -94,7 +105,7 @@ def drive_graph(item):
             # .get: reading the graph must not add keys to its defaultdicts
             obs["deps"][a] = sorted(inv[x.name] for x in g.dependencies.get(t, ()))
             obs["dependents"][a] = sorted(inv[x.name] for x in g.dependents.get(t, ()))
-        strip = lambda p: p[len(root):] if p.startswith(root + "/") else "?" + p  # noqa: E731
+        strip = lambda p: unspell(p[len(root):]) if p.startswith(root + "/") else "?" + p  # noqa: E731
         obs["provides"] = {strip(p): inv[t.name] for p, t in g.provides.items()}
         obs["unresolved"] = sorted(strip(p) for p in g.unresolved)
     except Exception as exc:  # noqa: BLE001
